@@ -1,7 +1,7 @@
 (* Dispatcher: one entry point for every executable model function. *)
 From Coq Require Import List ZArith Arith Bool QArith Qcanon.
 From MsmV Require Import Lib.Result Lib.PyList Lib.Sorting Run.Wire.
-From MsmV Require Import Lib.QMat Model.Labels Model.StateTraj Model.Msm Proofs.MsmFacts Model.Coring Proofs.CoringFacts Proofs.CoringWrap Model.Events Model.Similarity Spec.Wrappers Model.Ergodic Model.Peq Model.HS Model.Mcmc Model.CkTest.
+From MsmV Require Import Lib.QMat Model.Labels Model.StateTraj Model.Msm Proofs.MsmFacts Model.Coring Proofs.CoringFacts Proofs.CoringWrap Model.Events Model.Similarity Spec.Wrappers Model.Ergodic Model.Peq Model.HS Model.Mcmc Model.CkTest Model.Its.
 Import ListNotations.
 Local Open Scope Z_scope.
 
@@ -226,6 +226,30 @@ Definition run_ck (e : Z) (a : list Z) : option (list Z) :=
     | None => None end
   else None.
 
+Definition dcplx : dec cplx := dpair dQ dQ.
+Definition eclass (c : evclass) : Z :=
+  match c with RealNonPos => 0 | RealUnit => 1 | RealGeOne => 2 | Complex => 3 end.
+
+Definition run_its (e : Z) (a : list Z) : option (list Z) :=
+  if e =? 1001 then   (* eigen-pairs: residuals, ordering, trace *)
+    match dpair dbool (dpair dQ (dpair dQmat (dpair (dlist dcplx) (dlist (dlist dcplx))))) a with
+    | Some ((isleft, (tol, (T, (lams, vecs)))), _) =>
+        Some (ebools (map (fun p => residual_ok isleft tol T (fst p) (snd p)) (combine lams vecs))
+              ++ ebool (desc_sorted lams)
+              ++ eQ (trace T) ++ eQ (fst (csum lams)) ++ eQ (snd (csum lams)))
+    | None => None end
+  else if e =? 1002 then   (* classes of eigenvalues; exact lambda_2 of a two-state model from trajectories *)
+    match dlist dcplx a with
+    | Some (lams, _) => Some (eZs (map (fun l => eclass (classify l)) lams))
+    | None => None end
+  else if e =? 1003 then
+    match dpair dnested dnat a with
+    | Some ((ts, lag), _) =>
+        Some (eres (fun p => eQmat (fst p) ++ eQ (two_state_lambda (fst p)) ++ eQ (trace (fst p)))
+                   (estimate_markov_model ts lag))
+    | None => None end
+  else None.
+
 Definition run (req : list Z) : list Z :=
   match req with
   | [] => malformed
@@ -256,6 +280,9 @@ Definition run (req : list Z) : list Z :=
       | None =>
       match run_ck e a with
       | Some r => r
+      | None =>
+      match run_its e a with
+      | Some r => r
       | None => malformed
-      end end end end end end end end end
+      end end end end end end end end end end
   end.
